@@ -468,8 +468,7 @@ def run(ctx):
     # ---------------- R6 no row sharing between objects (an attribute stored for one object is never another object's row)
     ctx.rule('C05.R6', 'attribute rows linked into an object are freshly built; a row fetched from the store is never attached to a second object (its later modification or ordering would alter what the first object reports)')
     from ..engai import EngineAI
-    ai = EngineAI(src)
-    ai.run_all()
+    ai = EngineAI.shared(src)
     shared = {}
     n_add = 0
     for e in ai.events:
